@@ -40,7 +40,7 @@ ASSUMPTIONS = [
     "the number of loop steps, the zero-wirelength flag and the step at which a failure happened are read from the UpperBound "
     "callbacks and from the library's progress log; they are used for the measured distribution and for the known-finding "
     "classifiers (KF-C06-1: effective loop variables after k updates outside the numeric box of the statement — distances < 0.1, "
-    "approximation distance > 1e3, penalty/cutoff >= 2^64 — and wirelength not identically zero; KF-C06-2: error raised by a solve "
+    "approximation distance > 1e3, penalty/cutoff >= 2^64 or <= 2^-24 — and wirelength not identically zero; KF-C06-2: error raised by a solve "
     "without penalty on a circuit with a net-connected group of movable cells without fixed pin), never to accept a run",
     "circuits: vc::genCircuit (without its nets) restricted to rows >= 4 row heights wide, 1-10 cells (1-30 for one case in eight; "
     "one in four in the thorough tier); nets drawn by the harness: 7/12 generic (1..2n+1 nets of degree 1-5), 1/12 each: no net, "
